@@ -6,6 +6,7 @@ import (
 	"go/constant"
 	"go/token"
 	"go/types"
+	"regexp"
 	"sort"
 	"strings"
 
@@ -63,6 +64,7 @@ func checkC03(c *Ctx) {
 	}
 	c.Check(nFirst >= 1 && nRepl >= 1, "C03-R1", "registrars", "-", fmt.Sprintf("direct writers of keycodes: %v", names))
 	kt := buildKeyTables(c, p, db)
+	c03KT = kt
 	if kt == nil {
 		c.Undecided("C03-R2", "fold", "-", "the key-table builder could not be constant-folded")
 		return
@@ -202,6 +204,9 @@ func checkC03(c *Ctx) {
 	c.extra["key_tables"] = map[string]interface{}{"entries": len(kt.tables), "registrar_calls_folded_max": kt.regSites, "capability_fields_read": len(kt.fieldsRead)}
 }
 
+// c03KT: the folded key tables, for the table-level form of the xterm modifier rule.
+var c03KT *keyTables
+
 // c03XtermSites: every registrar call whose sequence argument carries an xterm modifier parameter ";N".
 func c03XtermSites(c *Ctx, p *Prog, modShift, modCtrl, modAlt, modMeta int64) {
 	pk := p.pkg("")
@@ -271,6 +276,50 @@ func c03XtermSites(c *Ctx, p *Prog, modShift, modCtrl, modAlt, modMeta int64) {
 			}
 			return true
 		})
+	}
+	if n < 30 && c03KT != nil {
+		// the registrations are not written out one by one (a loop over a table of parameters): the same
+		// pairing is read off the folded tables — every sequence with a modifier parameter ;N is bound
+		// with the mask N-1 stands for
+		re := regexp.MustCompile("^\\x1b\\[[0-9]+;([0-9]+)[~A-Za-z]$")
+		nb, bad := 0, ""
+		for _, name := range sortedKeys(c03KT.tables) {
+			t := c03KT.tables[name]
+			for seq, b := range t.seqs {
+				m := re.FindStringSubmatch(seq)
+				if m == nil {
+					continue
+				}
+				var num int64
+				fmt.Sscanf(m[1], "%d", &num)
+				if num < 2 || num > 16 {
+					continue
+				}
+				bits := num - 1
+				var want int64
+				if bits&1 != 0 {
+					want |= modShift
+				}
+				if bits&2 != 0 {
+					want |= modAlt
+				}
+				if bits&4 != 0 {
+					want |= modCtrl
+				}
+				if bits&8 != 0 {
+					want |= modMeta
+				}
+				if b.field != "" {
+					continue // the description's own sequence for a key (st: ESC[3;5~ is its kclr): database content
+				}
+				nb++
+				if b.mod != want && len(bad) < 300 {
+					bad += fmt.Sprintf("%s: %q is bound with modifiers %d, parameter %d stands for %d; ", name, seq, b.mod, num, want)
+				}
+			}
+		}
+		c.Check(nb >= 30 && bad == "", "C03-R3", "xterm-mod:tables", "-", fmt.Sprintf("%d folded bindings with a modifier parameter, each with the mask the parameter stands for %s", nb, bad))
+		return
 	}
 	if n < 30 {
 		c.Undecided("C03-R3", "xterm-mod:sites", "-", fmt.Sprintf("only %d xterm modifier registrations found, expected 30", n))
